@@ -48,14 +48,30 @@ pub fn strategy() -> impl Strategy<Value = Case> {
 struct Flags {
     was_ongoing: bool,
     keys_in_word: usize,
+    /// phonetic: the raw characters of the word in progress (header-derived table)
+    raw: String,
 }
 
 fn nonempty_preedit(r: &Rendered) -> bool {
     r.pre.iter().any(|p| p.as_ref().map(|s| !s.is_empty()).unwrap_or(false)) || (r.lonely && !r.text.is_empty())
 }
 
-fn invariants(fl: &mut Flags, s: &Step, case: &dyn Fn() -> Value) -> Result<(), Failure> {
+fn invariants(run: &Run, st: &mut Stats, fl: &mut Flags, s: &Step, case: &dyn Fn() -> Value) -> Result<(), Failure> {
     let ongoing = s.ctx.ongoing();
+    // raw text model (phonetic only)
+    match s.ev {
+        Ev::Key { code, .. } => {
+            if s.ctx.opts.is_phonetic() {
+                if let Some(c) = keys().by_code(*code).and_then(|k| k.ascii) {
+                    fl.raw.push(c);
+                }
+            }
+        }
+        Ev::Backspace => {
+            fl.raw.pop();
+        }
+        _ => fl.raw.clear(),
+    }
     let at = format!("event #{} ({})", s.index, gen::ev_to_string(s.ev));
     match (s.ev, s.outcome) {
         (Ev::Key { .. }, Outcome::Suggestion(r)) => {
@@ -72,7 +88,13 @@ fn invariants(fl: &mut Flags, s: &Step, case: &dyn Fn() -> Value) -> Result<(), 
                 return Err(Failure::new("flag-false-with-preedit", format!("{at}: returned {} but no ongoing session is reported", r.short()), case()));
             }
             if r.is_empty() && ongoing {
-                return Err(Failure::new("flag-true-after-empty-backspace", format!("{at}: backspace returned an empty suggestion but the session is still ongoing"), case()));
+                // known finding: single-string mode, the surviving raw text is not empty but transliterates to
+                // the empty string (it ends in the escape character, e.g. "o`")
+                let known = s.ctx.opts.is_phonetic() && !s.ctx.opts.psug && !fl.raw.is_empty() && crate::model::avro(&fl.raw).is_empty();
+                let kind = if known { "empty-transliteration-of-nonempty-composition" } else { "flag-true-after-empty-backspace" };
+                if !run.absorb(st, kind) {
+                    return Err(Failure::new(kind, format!("{at}: backspace returned an empty suggestion but the session is still ongoing (surviving raw text {:?})", fl.raw), case()));
+                }
             }
         }
         (Ev::CtrlBackspace, Outcome::Suggestion(r)) => {
@@ -94,13 +116,13 @@ fn invariants(fl: &mut Flags, s: &Step, case: &dyn Fn() -> Value) -> Result<(), 
     Ok(())
 }
 
-pub fn run_case(c: &Case, st: &mut Stats) -> Result<(), Failure> {
+pub fn run_case(run: &Run, c: &Case, st: &mut Stats) -> Result<(), Failure> {
     let sb = Sandbox::new();
     let mut it = match Interp::new(c.opts, &sb) {
         Ok(it) => it,
         Err(_) => return Ok(()),
     };
-    let mut fl = Flags { was_ongoing: false, keys_in_word: 0 };
+    let mut fl = Flags { was_ongoing: false, keys_in_word: 0, raw: String::new() };
     let opts = c.opts;
     let mut trace_for_case: Vec<Ev> = vec![];
     macro_rules! case_fn {
@@ -113,7 +135,7 @@ pub fn run_case(c: &Case, st: &mut Stats) -> Result<(), Failure> {
         let mut obs = |s: &Step| {
             trace_for_case.push(s.ev.clone());
             let t = trace_for_case.clone();
-            invariants(&mut fl, s, &|| gen::trace_json(&opts, &t))
+            invariants(run, st, &mut fl, s, &|| gen::trace_json(&opts, &t))
         };
         match it.run_op(op, &mut obs) {
             Ok(Ok(())) => {}
@@ -150,7 +172,7 @@ pub fn run_case(c: &Case, st: &mut Stats) -> Result<(), Failure> {
         let mut obs = |s: &Step| {
             trace_for_case.push(s.ev.clone());
             let t = trace_for_case.clone();
-            invariants(&mut fl, s, &|| gen::trace_json(&opts, &t))
+            invariants(run, st, &mut fl, s, &|| gen::trace_json(&opts, &t))
         };
         match it.exec(ev, &mut obs) {
             Ok(Ok(())) => {}
@@ -171,14 +193,14 @@ pub fn run_case(c: &Case, st: &mut Stats) -> Result<(), Failure> {
                     got_empty = r.is_empty();
                 }
                 let t = trace_for_case.clone();
-                invariants(&mut fl, s, &|| gen::trace_json(&opts, &t))
+                invariants(run, st, &mut fl, s, &|| gen::trace_json(&opts, &t))
             };
             match it.exec(Ev::Backspace, &mut obs) {
                 Ok(Ok(())) => {}
                 Ok(Err(f)) => return Err(f),
                 Err(p) => return Err(Failure::new(panic_kind(&p.info), format!("event #{}: {}", p.at, p.info), gen::trace_json(&opts, &it.trace))),
             }
-            reached = got_empty;
+            reached = got_empty && !it.ctx.ongoing();
         }
         if !reached {
             return Err(Failure::new("backspaces-do-not-reach-idle", format!("{presses} plain backspaces did not return an empty suggestion"), gen::trace_json(&opts, &it.trace)));
@@ -203,7 +225,7 @@ pub fn run_case(c: &Case, st: &mut Stats) -> Result<(), Failure> {
                 v["continuation_starts_at"] = json!(split_at);
                 v
             };
-            invariants(&mut fl, s, &cj)?;
+            invariants(run, st, &mut fl, s, &cj)?;
             let pf = |p: crate::driver::PanicInfo| Failure::new(panic_kind(&p), format!("fresh context: {p}"), cj());
             let twin: Option<Rendered> = match s.ev {
                 Ev::Key { code, m, sel } => Some(fresh.key(*code, *m, *sel).map_err(pf)?),
@@ -261,7 +283,7 @@ pub fn run_case(c: &Case, st: &mut Stats) -> Result<(), Failure> {
 }
 
 pub fn run(run: &Run) {
-    run.sharded("history-terminator-continuation", 16, run.tier.pick(500, 10000), 500, strategy, |_| (), |c: &Case, st, _| run_case(c, st));
+    run.sharded("history-terminator-continuation", 16, run.tier.pick(500, 10000), 500, strategy, |_| (), |c: &Case, st, _| run_case(run, c, st));
     run.require_label("H-left-desynchronised-composition", 30);
     run.require_label("H-learned-a-selection", 10);
     run.require_label("terminated-by-backspaces", 30);
@@ -269,13 +291,14 @@ pub fn run(run: &Run) {
 
 /// Replay: the concrete trace is split at `continuation_starts_at`; events before it run in the
 /// used context only, events after it in both.
-pub fn replay(_run: &Run, case: &Value) -> Result<(), Failure> {
+pub fn replay(run: &Run, case: &Value) -> Result<(), Failure> {
+    let mut st_replay = Stats::new();
     let opts = Opts::parse(case["opts"].as_str().unwrap_or_default());
     let events: Vec<Ev> = serde_json::from_value(case["events"].clone()).unwrap_or_default();
     let split = case["continuation_starts_at"].as_u64().map(|v| v as usize).unwrap_or(events.len());
     let sb = Sandbox::new();
     let mut it = Interp::new(opts, &sb).map_err(|p| Failure::new(panic_kind(&p.info), p.info.to_string(), case.clone()))?;
-    let mut fl = Flags { was_ongoing: false, keys_in_word: 0 };
+    let mut fl = Flags { was_ongoing: false, keys_in_word: 0, raw: String::new() };
     let mut fresh: Option<(Sandbox, Ctx)> = None;
     for (i, ev) in events.iter().enumerate() {
         if i == split {
@@ -284,7 +307,7 @@ pub fn replay(_run: &Run, case: &Value) -> Result<(), Failure> {
             fresh = Some((copy, f));
         }
         let mut obs = |s: &Step| -> Result<(), Failure> {
-            invariants(&mut fl, s, &|| case.clone())?;
+            invariants(run, &mut st_replay, &mut fl, s, &|| case.clone())?;
             if let Some((_, f)) = &fresh {
                 let pf = |p: crate::driver::PanicInfo| Failure::new(panic_kind(&p), format!("fresh context: {p}"), case.clone());
                 let twin = match s.ev {
